@@ -20,3 +20,27 @@ func VerifProfileRegister() map[string][2]string {
 
 	return out
 }
+
+// VerifEnvelope returns copies of the parts of the COSE_Sign1 message
+// currently held by the Evidence: whether a message is present, the
+// (bstr-wrapped) protected header as it enters the Sig_structure, the payload
+// and the signature. It exists only in builds with the "verif" tag.
+func (e *Evidence) VerifEnvelope() (present bool, protected, payload, signature []byte) {
+	if e.message == nil {
+		return false, nil, nil, nil
+	}
+
+	if p, err := e.message.Headers.MarshalProtected(); err == nil {
+		protected = append([]byte(nil), p...)
+	}
+
+	if e.message.Payload != nil {
+		payload = append([]byte{}, e.message.Payload...)
+	}
+
+	if e.message.Signature != nil {
+		signature = append([]byte{}, e.message.Signature...)
+	}
+
+	return true, protected, payload, signature
+}
